@@ -20,7 +20,13 @@ import (
 
 type gty string // "u64" "u32" "i32" "i64" "bool" "f64" "f32" "" (untyped constant)
 
+// type parameters of the generic function being translated (find[V any])
+var typeParams = map[string]bool{}
+
 func leanTy(t gty) string {
+	if strings.HasPrefix(string(t), "tp:") {
+		return string(t)[3:]
+	}
 	switch t {
 	case "f64":
 		if fxMode {
@@ -45,6 +51,9 @@ func goTy(e ast.Expr) gty {
 	id, ok := e.(*ast.Ident)
 	if !ok {
 		panic(fmt.Sprintf("translate: unsupported type expression %T", e))
+	}
+	if typeParams[id.Name] {
+		return gty("tp:" + id.Name)
 	}
 	switch id.Name {
 	case "uint64", "uint":
@@ -72,21 +81,26 @@ type sig struct {
 
 type trans struct {
 	mayPanic bool // the function can panic: its value is an Option (none = panicked)
-	p      *pkgInfo
-	env    map[string]gty    // variables in scope
-	ren    map[string]string // Go name -> Lean name
-	sigs   map[string]sig    // callable functions (translated ones and the hard-wired table)
-	fields map[string]gty    // receiver fields (jsf64ctx)
-	recv   string
+	p        *pkgInfo
+	env      map[string]gty    // variables in scope
+	ren      map[string]string // Go name -> Lean name
+	sigs     map[string]sig    // callable functions (translated ones and the hard-wired table)
+	fields   map[string]gty    // receiver fields (jsf64ctx)
+	recv     string
 	// stream functions (translate_prog.go)
-	stream  string                   // name of the bitStream parameter
-	psigs   map[string]psig          // translated stream functions
-	hoisted map[*ast.CallExpr]string // stream calls already bound to a name
-	tmpN    int
-	loopN   int
-	aux     []string // auxiliary definitions (loops) of the function being translated
-	self    string
-	auxReg  map[string]auxInfo // "<func>#switch<i>" / "<func>#for<i>": definitions translated on their own
+	stream             string                   // name of the bitStream parameter
+	psigs              map[string]psig          // translated stream functions
+	hoisted            map[*ast.CallExpr]string // stream calls already bound to a name
+	callbacks          map[string][]gty         // function parameters that draw from the stream: their result types
+	streamOwner        string                   // the *T parameter through which the stream is reached
+	recvName, recvType string
+	pureFns            map[string]sig  // func fields of the receiver
+	needDefault        map[string]bool // type parameters whose zero value is used
+	tmpN               int
+	loopN              int
+	aux                []string // auxiliary definitions (loops) of the function being translated
+	self               string
+	auxReg             map[string]auxInfo // "<func>#switch<i>" / "<func>#for<i>": definitions translated on their own
 	// pure-mode methods, for calls from the imperative part (translate_imp.go)
 	pureMethodFields map[string][]sfield
 	leanNames        map[string]string
@@ -361,6 +375,20 @@ func (t *trans) call(c *ast.CallExpr, want gty) (string, gty) {
 		return n, t.env[n]
 	}
 	fn := exprText(t.p.fset, c.Fun)
+	if fs, ok := t.pureFns[fn]; ok {
+		if len(c.Args) != len(fs.params) {
+			panic("translate: wrong number of arguments for " + fn)
+		}
+		var args []string
+		for i, a := range c.Args {
+			s, ty := t.expr(a, fs.params[i])
+			if ty != fs.params[i] {
+				panic("translate: argument type of " + fn)
+			}
+			args = append(args, s)
+		}
+		return "(" + strings.ReplaceAll(fn, ".", "_") + " " + strings.Join(args, " ") + ")", fs.results[0]
+	}
 	if fxMode {
 		switch fn {
 		case "float64":
@@ -1053,7 +1081,7 @@ func emitTranslated(p *pkgInfo) (out string, err error) {
 	b.WriteString("\n")
 	b.WriteString(t.exprFn("findBugSeedStep", "seed of the next test case in findBug", seedRhs, et, "u64"))
 	b.WriteString("\n/-! ### functions on the bit stream, in continuation-passing style over `Prog` -/\n\n")
-	for _, fn := range []string{"genFloat01", "genGeom", "genUintNNoReject", "genUintNUnbiased", "genUintNBiased", "genUintN", "genUintRange", "flipBiasedCoin", "genIntRange", "genIndex"} {
+	for _, fn := range []string{"genFloat01", "genGeom", "genUintNNoReject", "genUintNUnbiased", "genUintNBiased", "genUintN", "genUintRange", "flipBiasedCoin", "genIntRange", "genIndex", "find", "filteredGen.maybeValue", "filteredGen.value", "customGen.value", "mappedGen.value"} {
 		b.WriteString(t.progFunction(fn, true))
 		b.WriteString("\n")
 	}
